@@ -1008,6 +1008,23 @@ func (e *FnEnc) lookupName(env *Env, name string, phiOver map[*ssa.Phi]Val) (Val
 	}
 	// debug bindings: a source variable bound to a unique SSA value
 	if bs := e.debugNames[name]; len(bs) > 0 {
+		// a variable that lives in a cell (address-taken, captured) is that cell wherever it is mentioned
+		var cell ssa.Value
+		cellOK := true
+		for _, b := range bs {
+			if b.addr {
+				if cell == nil || cell == b.val {
+					cell = b.val
+				} else {
+					cellOK = false
+				}
+			}
+		}
+		if cell != nil && cellOK {
+			if v, ok := e.vals[cell]; ok {
+				return v, true
+			}
+		}
 		var uniq ssa.Value
 		okU := true
 		for _, b := range bs {
